@@ -17,7 +17,8 @@ async def one(m, m_as_label, roe, nror, outcomes):
         async def get_result(self, task_id, with_logs=False): raise KeyError
     default_label = roe == 'default_true'
     b = InMemoryBroker().with_result_backend(RB())
-    b.add_middlewares(SimpleRetryMiddleware(default_retry_count=m if not m_as_label else 3, default_retry_label=default_label, no_result_on_retry=nror))
+    class ProjectRetry(SimpleRetryMiddleware): pass          # a project's own subclass (only defaults differ): its inherited on_error is still an overridden hook
+    b.add_middlewares((ProjectRetry if m % 2 == 0 else SimpleRetryMiddleware)(default_retry_count=m if not m_as_label else 3, default_retry_label=default_label, no_result_on_retry=nror))
     labels = {'user': 'u1'}
     if m_as_label: labels['max_retries'] = m
     if roe in ('true', 'false'): labels['retry_on_error'] = roe == 'true'
@@ -94,6 +95,37 @@ async def history(kind):
         if seen != want: pr.append(f"C11: two messages of one task with different per-call labels, each failing once: attempts ran as (task id, user labels) {seen}, expected {want}")
     return pr
 
+async def history_inplace_limit():
+    """configuration: InMemoryBroker(await_inplace=True, max_async_tasks=2) - a retry is delivered while the failing attempt is still inside its on_error hook;
+    the chain of max_retries=4 executions must still complete"""
+    from taskiq import InMemoryBroker, SimpleRetryMiddleware
+    from taskiq.abc.broker import AsyncBroker
+    AsyncBroker.global_task_registry = {}
+    b = InMemoryBroker(await_inplace=True, max_async_tasks=2); b.add_middlewares(SimpleRetryMiddleware(default_retry_count=4)); runs = []
+    async def t(): runs.append(1); raise ValueError("always")
+    task = b.register_task(t, task_name='t', retry_on_error=True)
+    try: await asyncio.wait_for(task.kiq(), 5)
+    except asyncio.TimeoutError: return [f"C11: InMemoryBroker(await_inplace=True, max_async_tasks=2), max_retries=4, every attempt fails: only {len(runs)} of 4 executions happened, then the chain hung (no further attempt within 5 s)"]
+    except BaseException: pass
+    return [] if len(runs) == 4 else [f"C11: InMemoryBroker(await_inplace=True, max_async_tasks=2), max_retries=4, every attempt fails: {len(runs)} executions, expected 4"]
+
+async def history_model():
+    """the arguments of a retried task are the caller's on EVERY attempt - also a pydantic argument whose field has a default factory the caller did not set"""
+    import pydantic, uuid
+    from taskiq import InMemoryBroker, SimpleRetryMiddleware
+    from taskiq.abc.broker import AsyncBroker
+    AsyncBroker.global_task_registry = {}
+    class Order(pydantic.BaseModel):
+        item: str
+        idempotency_key: str = pydantic.Field(default_factory=lambda: uuid.uuid4().hex)
+    b = InMemoryBroker(await_inplace=True); b.add_middlewares(SimpleRetryMiddleware(default_retry_count=3)); keys = []
+    async def t(order: Order):
+        keys.append(order.idempotency_key)
+        if len(keys) < 3: raise ValueError("again")
+    task = b.register_task(t, task_name='t', retry_on_error=True)
+    o = Order(item='book'); await task.kiq(o)
+    return [] if keys == [o.idempotency_key] * 3 else [f"C11: a task called with Order(item='book') (idempotency_key {o.idempotency_key!r} from the field's default factory) failed twice and was retried: the attempts ran with keys {keys} - not the same arguments"]
+
 def expected(m, enabled, outcomes):
     n = 0
     while True:
@@ -122,6 +154,10 @@ def run(sc):
     for kind in ('falsy', 'acks', 'two'):
         pr = asyncio.run(history(kind)); n += 1
         if pr: fails.append({'key': 'history/' + kind, 'failed_clauses': pr + ([c.replace('C11:', 'C09:', 1) for c in pr] if kind == 'two' else [])})
+    pr = asyncio.run(history_inplace_limit()); n += 1
+    if pr: fails.append({'key': 'history/inplace-small-limit', 'failed_clauses': pr})
+    pr = asyncio.run(history_model()); n += 1
+    if pr: fails.append({'key': 'history/model-argument', 'failed_clauses': pr})
     # the same through the REAL in-memory result backend: what a client reads back under the task id is the final attempt's outcome
     for nror in (True, False):
         for outcomes, want in ((['fail', 'ok'], ('ok', 2)), (['fail', 'fail', 'ok'], ('ok', 3)), (['fail'] * 8, ('err', 3))):
